@@ -64,7 +64,12 @@ def plan(tier, seed):
             shards.append(('lattice', s, list(vals), gs[i:i + 12]))
     shards.append(('make_grid', None, None, None))
     for inp in (('file', '3SGB'), ('file', '1HPX'), ('pair', 'ASP', 'LYS', 2.8, 'mid'), ('pair', 'HIS', 'GLU', 3.0, 'deep'),
-                ('pair', 'ACT', 'MAM', 2.9, 'exposed'), ('dna', 'DA', 'N1'), ('dna', 'DT', 'N3')):
+                ('pair', 'ACT', 'MAM', 2.9, 'exposed'), ('dna', 'DA', 'N1'), ('dna', 'DT', 'N3'),
+                # ions (net charge), several conformations, groups that exist in some conformations only, a chain one model lacks
+                ('pair', 'CA', 'GLU', 2.6, 'mid'), ('pair', 'ZN', 'HIS', 2.2, 'mid'), ('pair', 'CL', 'LYS', 3.0, 'mid'),
+                ('c08', dict(kind='alt', layout=[('A', 'ASP'), ('B', 'ASPs')])), ('c08', dict(kind='alt', layout=[('A', 'ASP'), ('B', 'ALA')])),
+                ('c08', dict(kind='alt', layout=[('A', 'ALA'), ('B', 'ASP'), ('C', 'ASPs')], lys=[('B', 'LYSs'), ('C', 'LYS')])),
+                ('c08', dict(kind='model', layout=[(1, 'ASP'), (2, 'ASPnoCG'), (3, 'absent')])), ('kmodels', 'first-lacks-B')):
         shards.append(('real', list(inp), None, gs[::7]))
     return dict(shards=shards, exhaustive=True,
                 rule=('grids (min,max,step): min in {0,1,2.5} x span in {0.3,1,6,14} x step in {.05,.1,.25,.3,.5,.7,1,2} '
@@ -81,16 +86,16 @@ def on_lattice(p, w0, w2):
     return abs(p - (w0 + k * w2))
 
 
-def oracle(mol_factory, case, acc, grid, wins, api_mol=None):
+def oracle(mol_factory, case, acc, grid, wins, api_mol=None, cname='AVR'):
     """mol_factory(opts) -> fresh real container (with pKa overwritten) run with these options."""
     v = []
     lo, hi, st = grid
     pts = pf.ref_grid(lo, hi, st)
     mol = api_mol or mol_factory(())
-    tri = pf.triples(mol)
+    tri = pf.triples(mol, cname)
     n = max(1, len(tri))
     for ref in ('neutral', 'low-pH'):
-        prof, opt, r80, stab = mol.get_folding_profile(conformation='AVR', reference=ref, grid=grid)
+        prof, opt, r80, stab = mol.get_folding_profile(conformation=cname, reference=ref, grid=grid)
         got = [p[0] for p in prof]
         if len(got) != len(pts) or any(abs(a - b) > 1e-6 for a, b in zip(got, pts)):
             miss = 'end-point-missing' if len(got) == len(pts) - 1 else 'points-differ'
@@ -115,13 +120,13 @@ def oracle(mol_factory, case, acc, grid, wins, api_mol=None):
             exps = (min(ws), max(ws)) if ws else (None, None)
             if tuple(stab) != exps:
                 v.append(('stability-range-inconsistent', 'range %r expected %r' % (stab, exps)))
-    cprof = mol.get_charge_profile(conformation='AVR', grid=grid)
+    cprof = mol.get_charge_profile(conformation=cname, grid=grid)
     gotc = [r[0] for r in cprof]
     if len(gotc) != len(pts) or any(abs(a - b) > 1e-6 for a, b in zip(gotc, pts)):
         v.append(('charge-grid/%s' % ('end-point-missing' if len(gotc) == len(pts) - 1 else 'points-differ'),
                   'grid %s: %d points, %d requested' % (grid, len(gotc), len(pts))))
     # linkage between the two reported profiles (trapezoid, rigorous error bound h^3/12 * max|f''|)
-    prof = mol.get_folding_profile(conformation='AVR', reference='neutral', grid=grid)[0]
+    prof = mol.get_folding_profile(conformation=cname, reference='neutral', grid=grid)[0]
     if len(prof) == len(cprof):
         for i in range(len(prof) - 1):
             h = cprof[i + 1][0] - cprof[i][0]
@@ -173,6 +178,8 @@ def oracle(mol_factory, case, acc, grid, wins, api_mol=None):
         acc.extra['files_written'] += 1
     seen = set()
     for ck, what in v:
+        if cname != 'AVR':
+            ck += '/single-conformation'
         if ck not in seen:
             seen.add(ck)
             acc.viols.append(Viol(case, 'linkage', ck, what))
@@ -233,11 +240,16 @@ def run_case(case, ctx, acc):
         text = c09.real_text(case['inp'], ctx.seed)
 
         def factory(opts):
-            return pk.run(text, opts)
+            return pk.run(text, tuple(opts) + (('--keep-protons',) if case['inp'][0] == 'kmodels' else ()))
     wins = windows(ctx.tier, grid)
     if case['kind'] == 'real':
         wins = wins[:2]
     oracle(factory, case, acc, grid, wins)
+    if case['kind'] == 'real':      # the same relations for every single conformation (API level)
+        m = factory(())
+        for cname in m.conformation_names:
+            oracle(factory, dict(case, conformation=cname), acc, grid, [], api_mol=m, cname=cname)
+            acc.n += 1
     acc.n += 1
     acc.nontrivial.add(jhash(case))
     acc.outcomes['%s/%d' % (case['kind'], len(pf.ref_grid(*grid)))] += 1
